@@ -147,6 +147,24 @@ func checkC11(r *Run) int {
 		c.Tags = map[string]string{"class": "config", "card": "both-keys", "vt": "both", "pos": nested}
 		cases = append(cases, c)
 	}
+	// sibling fields one of whose names is a string prefix of the other's (Name / Namespace, ID / IDs):
+	// one is excluded, the other carries options of every kind, in both key forms and both directions
+	for i, pr := range [][2]string{{"Alpha.Name", "Alpha.Namespace"}, {"Shared.ID", "Shared.IDs"}, {"Alpha.Meta.ID", "Alpha.Meta.IDs"}, {"Beta.ByKey.ID", "Beta.ByKey.IDs"}} {
+		for dir := 0; dir < 2; dir++ {
+			excl, opt := pr[dir], pr[1-dir]
+			c := space.F5()[0]
+			c.Cfg.Exclude = []string{excl}
+			c.Cfg.Required = []string{opt}
+			c.Cfg.Sensitive = []string{opt}
+			c.Cfg.NameOverrides = map[string]string{opt: "kept_sibling"}
+			c.Cfg.Validators = map[string][]string{opt: {dsl.TFX + ".V(31)"}}
+			c.Cfg.PlanModifiers = map[string][]string{opt: {dsl.TFX + ".PM(31)"}}
+			c.Label = fmt.Sprintf("C11/prefix-siblings/%d/exclude=%s/options=%s", i, excl, opt)
+			c.Group, c.Variant = "f5", "prefix-siblings|"+excl+"|"+opt
+			c.Tags = map[string]string{"class": "config", "card": "prefix-siblings", "vt": map[int]string{0: "shorter-excluded", 1: "longer-excluded"}[dir], "pos": opt}
+			cases = append(cases, c)
+		}
+	}
 	built, bin, err := r.generate(cases)
 	if err != nil {
 		fmt.Fprintln(os.Stderr, err)
